@@ -224,6 +224,7 @@ def main():
     OBS = [{"op": "event", "event": {"go": 1, "k": 1}}, {"op": "event", "event": {"go": "x", "k": 2}}, {"op": "search", "pattern": {"k": "?k"}, "inherited": False},
            {"op": "search", "pattern": {"v": "?v"}, "inherited": False}, {"op": "searchRules", "event": {"go": 1, "k": "x"}, "inherited": False}, {"op": "listRules", "inherited": False}]
     selfcons_phase(ck, lr, fcases, fout, OBS, rng, 160 if not ck.thorough else 100000)
+    remrule_fault_phase(ck, lr)
     # crash points: run the acknowledged prefix on the model; after the crash storage must hold exactly that, except for the ids the interrupted op names (and their dependents)
     cout = run_cases(lr.drv, ccases)
     mprefix = []
@@ -283,12 +284,21 @@ def main():
             for n_ in (100, 32768, 32769, 40000):
                 big = "k" * n_
                 dcases.append({"kind": "loc", "state": st, "storage": sto, "locs": ["a"], "ops": [
-                    {"op": "addFact", "loc": "a", "id": big, "fact": {"k": 1}}, {"op": "reload", "loc": "a"}, {"op": "getFact", "loc": "a", "id": big}]})
+                    {"op": "addFact", "loc": "a", "id": big, "fact": {"k": 1}}, {"op": "reload", "loc": "a"}, {"op": "getFact", "loc": "a", "id": big},
+                    # whatever the back end made of that id, it keeps taking writes afterwards (a refused write must not hold its lock)
+                    {"op": "addFact", "loc": "a", "id": "after", "fact": {"k": 2}}, {"op": "remFact", "loc": "a", "id": "after"}, {"op": "addFact", "loc": "a", "id": "after", "fact": {"k": 3}},
+                    {"op": "reload", "loc": "a"}, {"op": "getFact", "loc": "a", "id": "after"}]})
     dout = run_cases(lr.drv, dcases)
     for c, o in zip(dcases, dout):
         ck.count({"limits": len(c["ops"][0]["id"]), "s": c["state"], "sto": c["storage"]})
         outs = o.get("outs") or []
-        if len(outs) == 3 and "ok" in outs[0] and "ok" not in outs[2]:
+        if o.get("err") in ("crash", "hang") or len(outs) != len(c["ops"]) or any(isinstance(x, dict) and x.get("err") in ("hang", "panic", "crashed") for x in outs) or \
+                (len(outs) == len(c["ops"]) and ("ok" not in outs[-1] or (outs[-1].get("ok") or {}).get("k") != 3)):
+            ck.violation("after an AddFact with a %d byte id on %s storage (%s state) the location no longer takes writes: %s" % (
+                len(c["ops"][0]["id"]), c["storage"], c["state"], canon([{k: v for k, v in (x or {}).items() if k in ("ok", "err", "msg")} for x in outs[3:]] or o)[:300]),
+                {"case": {kk: (v if kk != "ops" else [dict(op, id="k*%d" % len(op["id"])) if len(op.get("id", "")) > 100 else op for op in v]) for kk, v in c.items()}}, tag="limits-after")
+            continue
+        if len(outs) >= 3 and "ok" in outs[0] and "ok" not in outs[2]:
             ck.violation("AddFact with a %d byte id was acknowledged on %s storage (%s state) but the fact is gone after reload: %s" % (
                 len(c["ops"][0]["id"]), c["storage"], c["state"], canon(outs[2])[:150]),
                 {"case": {kk: (v if kk != "ops" else [dict(op, id="k*%d" % len(op["id"])) if "id" in op else op for op in v]) for kk, v in c.items()}, "impl": [outs[0].get("err"), outs[2].get("err")]}, tag="limits")
